@@ -108,7 +108,8 @@ def check_density(spec, model, sim, user, V, where, counters):
             V.add("total-equals-joint-density", f"{which}/{'+'.join(kinds) or 'empty'}",
                   f"{where}: Model.{which} = {g.tolist()}, reference sum over {len(T['terms'])} distribution nodes = {exp[which]:.6f} "
                   f"(terms: {[(t['name'], t['role'], round(float(t['lp'].sum()), 4)) for t in T['terms']][:6]})")
-    if T["decomposes"] and not user:
+    scalar_totals = all(np.asarray(got[w]).shape == () for w in got)
+    if T["decomposes"] and not user and scalar_totals:
         lhs = float(np.asarray(got["log_prob"], np.float64))
         rhs = float(np.asarray(got["log_lik"], np.float64) + np.asarray(got["log_prior"], np.float64))
         if abs(lhs - rhs) > 1e-4 * (1 + mag):
@@ -167,7 +168,7 @@ def execute(plan: dict) -> dict:
             sim2.apply(i, op)
             with M.quiet_counters(twin):
                 clean = not any(n.outdated for n in twin.nodes.values())
-            if got is not None and clean and not plan["user"]:
+            if got is not None and clean and not plan["user"] and all(np.asarray(got[w]).shape == () and np.asarray(getattr(twin, w)).shape == () for w in got):
                 for which in ("log_prob", "log_lik", "log_prior"):
                     a = float(np.asarray(got[which], np.float64))
                     c = float(np.asarray(getattr(twin, which), np.float64))
